@@ -244,10 +244,16 @@ func runJobs(jobs []*Job, par int, hard time.Time) []*Result {
 				res[i] = &Result{Scenario: j.Scenario.Name, Error: "skipped: tier deadline reached", Stats: newStats()}
 				return
 			}
-			left := int(time.Until(hard).Seconds())
+			// fair share of what is left of the tier budget: (time left) x (parallel slots) / (jobs not yet started);
+			// jobs that finish early leave their share to the later ones, so open-ended scenarios go last in a family
+			left := time.Until(hard).Seconds()
+			share := int(left * float64(par) / float64(len(jobs)-i))
 			jj := *j
-			if jj.BudgetS > left {
-				jj.BudgetS = max(left, 1)
+			if share < jj.BudgetS {
+				jj.BudgetS = max(share, 3)
+			}
+			if jj.BudgetS > int(left) {
+				jj.BudgetS = max(int(left), 1)
 			}
 			in, _ := json.Marshal(&jj)
 			cmd := exec.Command(os.Args[0], "worker")
@@ -376,6 +382,30 @@ func checkMain(id, tier string) int {
 	for _, j := range jobs {
 		j.Prop = id
 	}
+	// open-ended scenarios last: they absorb whatever the quick ones leave of the tier budget
+	weight := func(j *Job) int {
+		sc, w := j.Scenario, 0
+		if sc.Dev.Byz {
+			w += 2
+		}
+		if sc.E2 != nil && sc.E2.Views > 1 {
+			w += 2
+		}
+		if sc.E2 != nil {
+			w++
+		}
+		if sc.Sweep || sc.Twin {
+			w++
+		}
+		if sc.Mode == "all" || sc.Mode == "focus" {
+			w += 2
+		}
+		if sc.K >= 3 {
+			w++
+		}
+		return w
+	}
+	sort.SliceStable(jobs, func(a, b int) bool { return weight(jobs[a]) < weight(jobs[b]) })
 	// VERIF_SEED only permutes scheduling order of the scenario families
 	if s := seedEnv(); s != 0 && len(jobs) > 1 {
 		r := s % len(jobs)
@@ -400,7 +430,7 @@ func checkMain(id, tier string) int {
 		agg.States += r.States
 		agg.Transitions += r.Transitions
 		agg.Replays += r.Replays
-		agg.Validated += r.Validated
+		agg.Validated += r.Validated + r.Extra["copy_vs_replay_checks"]
 		agg.Terminal += r.Terminal
 		agg.Done += r.Done
 		agg.Stuck += r.Stuck
@@ -475,7 +505,7 @@ func checkMain(id, tier string) int {
 	var samples []any
 	for _, r := range results {
 		if len(r.Sample) > 0 && len(samples) < 3 {
-			samples = append(samples, map[string]any{"scenario": r.Scenario, "default_path_log": r.Sample})
+			samples = append(samples, map[string]any{"scenario": r.Scenario, "default_path_log": r.Sample, "one_explored_path_with_deviations": r.Sample2})
 		}
 	}
 	var per []map[string]any
@@ -528,6 +558,12 @@ func replayMain(file string) int {
 	if err := json.Unmarshal(b, &f); err != nil {
 		fmt.Fprintln(os.Stderr, err)
 		return 2
+	}
+	if f.Scenario == nil {
+		// enumerator / driver findings: the failing input is self-contained in the file
+		fmt.Println(string(b))
+		fmt.Printf("VIOLATION property=%s replay=%s\n  re-run ./check %s to re-evaluate this input\n", f.Prop, file, f.Prop)
+		return 1
 	}
 	f.Scenario.finish()
 	n, trace := confirm(&f, 2)
